@@ -1,6 +1,7 @@
 package main
 
 import (
+	"regexp"
 	"fmt"
 	"sort"
 	"strings"
@@ -873,4 +874,76 @@ func matchPatternIn(pat string, names []string, text string) [][]string {
 		}
 	}
 	return out
+}
+
+var boundVarNum = regexp.MustCompile(`\|q ([^|]*?) [0-9]+\|`)
+
+func normBound(t string) string { return boundVarNum.ReplaceAllString(t, "|q $1|") }
+
+// smtIdent: the goal is, up to the numbering of bound variables, one of the quantified
+// hypotheses (an invariant carried over unchanged, a callee's postcondition restated). Then it is
+// enough that the hypothesis' guards follow from the goal's guard — a small quantifier-free query
+// (the non-quantified prefix, the guard, the negated guards of the hypothesis).
+func (c *Ctx) smtIdent(o *Obligation) (string, bool) {
+	goal := strings.TrimSpace(o.Goal.S)
+	if !strings.HasPrefix(goal, "(forall ") {
+		return "", false
+	}
+	_, gas := splitTop(goal)
+	if len(gas) != 2 {
+		return "", false
+	}
+	gb := normBound(strings.TrimSpace(gas[0]) + " " + strings.TrimSpace(stripPattern(gas[1])))
+	var guards []string
+	found := false
+	check := func(l string) {
+		if found || !strings.HasPrefix(l, "(assert") || !strings.Contains(l, "(forall ") {
+			return
+		}
+		q, ok := parseQuantHyp(l)
+		if !ok {
+			return
+		}
+		var bs []string
+		for i, n := range q.names {
+			bs = append(bs, "("+n+" "+q.sorts[i]+")")
+		}
+		hb := normBound("(" + strings.Join(bs, " ") + ") " + strings.TrimSpace(q.body))
+		if hb == gb {
+			found = true
+			guards = q.guards
+		}
+	}
+	for _, d := range c.decls {
+		check(d)
+	}
+	for _, l := range c.body[:o.Prefix] {
+		check(l)
+	}
+	if !found {
+		return "", false
+	}
+	var b strings.Builder
+	b.WriteString(prelude)
+	nq := func(l string) bool {
+		return !(strings.HasPrefix(l, "(assert") && (strings.Contains(l, "(forall ") || strings.Contains(l, "(exists ")))
+	}
+	for _, d := range c.decls {
+		if nq(d) {
+			b.WriteString(d + "\n")
+		}
+	}
+	for _, l := range c.body[:o.Prefix] {
+		if nq(l) {
+			b.WriteString(l + "\n")
+		}
+	}
+	b.WriteString("(assert " + o.Guard.S + ")\n")
+	if len(guards) == 0 {
+		b.WriteString("(assert false)\n")
+	} else {
+		b.WriteString("(assert (not (and " + strings.Join(guards, " ") + ")))\n")
+	}
+	b.WriteString("(check-sat)\n")
+	return b.String(), true
 }
